@@ -214,3 +214,17 @@ func buildLowFields(rt reflect.Type, nested, omitEmpty bool) (fa []*finfo) {
 	}
 	return
 }
+
+// nilEmbedded returns true if the field is promoted from an embedded pointer
+// that is nil, the field does not exist in that case.
+func nilEmbedded(rv reflect.Value, index []int) bool {
+	for _, i := range index[:len(index)-1] {
+		if rv = rv.Field(i); rv.Kind() == reflect.Ptr {
+			if rv.IsNil() {
+				return true
+			}
+			rv = rv.Elem()
+		}
+	}
+	return false
+}
